@@ -452,6 +452,9 @@ def run(chk):
         if it["ast"] is not None and mech in ("scoped", "env"):
             small = shrink_item(drv, it, mech)
             got, exp = evaluate_item(small, mech)
+        if not cls and chk.finding("D16") is not None and it["ast"] is not None and star_over_several(it["ast"]) and same_targets(got, exp):
+            chk.known("D16")
+            continue
         what = ("default schema %r via %s does not give the result of the explicitly qualified script (differs in: %s)%s"
                 % (it["S"], mech, ", ".join(diff_keys(got, exp)), " [D17 class: a Table created without schema ignores the configured default]" if cls else ""))
         chk.violation(what, {"kind": "c14", "dialect": small["dialect"], "S": small["S"], "label": small["label"], "mechanism": mech,
@@ -473,6 +476,29 @@ def run(chk):
              "override in process, environment variable in a fresh subprocess[, both]}; compared: source/target/intermediate tables, all "
              "column paths, both cytoscape exports. non-trivial = the partner reports at least one table; distinct by (text, dialect, S, mechanism)",
         trusted_base=["Lean 4.33 kernel", "axioms: propext, Classical.choice, Quot.sound", "harness/c14.py, corpus14.py, sqlimpl.py"])
+
+
+def star_over_several(stmts):
+    """some SELECT has an unqualified `*` over two or more relations: which relation a shared column name is attributed to depends on
+    the iteration order of a set of relations hashed by name / subquery TEXT (C11, finding D16) — and the text is what qualification
+    changes"""
+    for n in gensql._walk(stmts):
+        if isinstance(n, list) and n and n[0] == "select" and len(n) == 7:
+            if any(it[0][0] == "star" and not it[0][1] for it in n[2]):
+                rels = sum(1 + len(fe[1]) for fe in n[3])
+                if rels >= 2:
+                    return True
+    return False
+
+
+def same_targets(got, exp):
+    """both sides report the same target columns and the same tables; only the attribution of sources differs"""
+    if "result" not in got or "result" not in exp:
+        return False
+    g, e = got["result"], exp["result"]
+    if any(g[k] != e[k] for k in ("source", "target", "intermediate", "cyto_table")):
+        return False
+    return sorted({p[-1] for p in g.get("paths", [])}) == sorted({p[-1] for p in e.get("paths", [])})
 
 
 def classify_d17(got, exp, S):
